@@ -7,6 +7,34 @@ import subprocess
 VERIF = os.path.dirname(os.path.dirname(os.path.abspath(__file__)))
 
 CLAIMED = {
+    "C04": {
+        "category": "fault_enumeration",
+        "text": "For every generated program (functions, methods, lambdas with 0..3 parameters; locals before/inside/after tries; assignments; captured variables; for/while loops; tries nested to depth 3 with class filters; handlers containing fault points; exits by completion, break, continue, return through several tries; callbacks run by native iterators incl. the lazy for protocol) every dynamic fault point (up to 40) is enumerated with error kinds: raise of Error / user subclass, IndexError, RuntimeError, PropertyError from the interpreter, and IoError produced by a simulator-injected failure of the n-th file system read. An executable model of the IR gives the expected handler and the expected value of every variable in scope; GC schedule and address policy vary per program.",
+        "design_ref": "DESIGN.md section 3 C04",
+        "note": "Quick tier enumerates all points x 2 seeded kinds per program, thorough all 6 kinds. Stack overflow as an error kind is not generated. The model shares no code with Laythe.",
+        "technique": "deterministic simulation with fault injection: enumerated dynamic fault points x error kinds (incl. injected fs faults), executable IR model as oracle",
+    },
+    "C10": {
+        "category": "exploration",
+        "text": "Generated mutation/observation histories over lists (initial lengths around the growth capacities), maps and instances through aliases in locals/parameters, module variables, fields, nested list elements, map keys, tuple elements, closure captures, channel buffers and parameters of other fibers (mutations and observations also performed by another fiber across context switches), under seeded GC schedules; every observation must equal a reference heap with immutable identities.",
+        "design_ref": "DESIGN.md section 3 C10",
+        "note": "Exempt by construction (pinned known finding C10-forwarded-list-identity): identity observations on a list that has grown past its capacity when a side is read from a non-stack location. All content observations and all other identity observations are enforced.",
+        "technique": "deterministic simulation: alias mutation histories incl. cross-fiber aliases under seeded GC schedules, reference-heap oracle",
+    },
+    "C17": {
+        "category": "exploration",
+        "text": "Generated acyclic module graphs (1..6 files incl. nested packages) live in the simulated file system; the main module imports them in every form (whole, renamed, selected symbols with renames, repeated, transitive), optionally while a user fiber is alive across the imports and with fibers inside module bodies; one module file may carry an injected read fault (not found / permission denied / invalid UTF-8); missing modules, non-exported and private names are requested on purpose. A module-graph model gives the expected marker order (first-import DFS, exactly once, before the importer continues), exported values, the private counter observable only through its export, and which runs must end with an ImportError before any later statement.",
+        "design_ref": "DESIGN.md section 3 C17",
+        "note": "Imports are only legal at module scope (observed), so import failures cannot be caught; a parent package file is provided and run before a nested module as the shipped loader does.",
+        "technique": "deterministic simulation: module graphs in a simulated fs with read faults and fibers alive across imports, module-graph model as oracle",
+    },
+    "C19": {
+        "category": "exploration",
+        "text": "Generated prompt sessions (4..18 entries: lets, functions, classes, subclasses, instances, closures, functions with property/method/super sites called many entries later, module imports and calls into them, fibers within an entry, and failing entries of 9 kinds incl. failing imports) are fed through the scripted read_line seam under seeded GC schedules; stdout with prompts stripped must equal Vm::run on the concatenation of the successful entries; failing entries must produce diagnostics and leave the session usable; EOF is injected after every prefix (enumerated) and the cut session must print a prefix of the full session and exit 0.",
+        "design_ref": "DESIGN.md section 3 C19",
+        "note": "Failing entries are constructed to have no effect before they fail; fibers are started and joined within one entry.",
+        "technique": "deterministic simulation: scripted stdin sessions with failing entries and EOF injected at every prefix, differential against one-file execution",
+    },
     "C05": {
         "category": "fault_enumeration",
         "text": "Every single collectable allocation point x {nursery, full} is enumerated for every fixture program (all pairs in the thorough tier), plus seeded every/bernoulli/burst/periodic/threshold schedules over the corpus and over generated workloads (iterator pipelines with allocating callbacks, object churn, fiber networks), on a simulated heap that poisons freed blocks and either quarantines or eagerly reuses addresses. The never-collect run of the same program is the oracle; a header-validity hook turns any traced or dereferenced freed object into a typed panic. This samples (and for single points enumerates) the schedule quantifier; it is evidence, not proof.",
@@ -70,7 +98,7 @@ NOT_APPLICABLE = {
     "C18": "traceback contents are a pure function of program and line layout; no schedule or fault dimension",
 }
 
-IN_PROGRESS = {p: "applicable (DESIGN.md section 3) but its check is not built yet; not claimed at this commit" for p in ["C04", "C10", "C17", "C19"]}
+IN_PROGRESS = {}
 
 
 def main():
